@@ -41,6 +41,8 @@ struct Summary {
     std::vector<std::string> samples;     // already JSON
     bool exhaustive = true;
     std::string bound;
+    unsigned long long digest = 1469598103934665603ULL; // FNV-1a over every (case -> observed output); used by C20
+    void digestAdd(const std::string &x) { for (unsigned char c : x) { digest ^= c; digest *= 1099511628211ULL; } digest ^= 0xff; digest *= 1099511628211ULL; }
 
     void violate(const std::string &key, const std::string &what, const std::string &replayJson)
     {
@@ -59,6 +61,7 @@ struct Summary {
         o += ",\"distinct_outcomes\":" + std::to_string(outcomes.size());
         o += ",\"exhaustive\":" + std::string(exhaustive ? "true" : "false");
         o += ",\"bound\":" + jstr(bound);
+        o += ",\"digest\":\"" + std::to_string(digest) + "\"";
         o += ",\"violation_count\":" + std::to_string(violationCount);
         o += ",\"counters\":{";
         bool first = true;
